@@ -367,7 +367,7 @@ Proof.
       rewrite firstn_all2 by (cbn; lia). rewrite Eu. reflexivity.
   - (* KBytes *) binv Hk0. destruct x as [l s3]. binv Hk. destruct x as [b s4]. binv Hk0. destruct x as [p s5].
     injection Hk as <- <- <-.
-    apply read_num_inv in Hb. destruct Hb as (R3 & Z3 & B3). apply read_nN_inv in Hb0. destruct Hb0 as (R4 & L4 & Z4).
+    apply read_num_inv in Hb. destruct Hb as (R3 & Z3 & B3). apply copy_nN_ok in Hb0. apply read_nN_inv in Hb0. destruct Hb0 as (R4 & L4 & Z4).
     apply read_nN_inv in Hb1. destruct Hb1 as (R5 & L5 & Z5). cbn in B3.
     exists {| i_tag := t; i_typ := 8; i_len := l; i_val := b; i_pad := p |}. split; [|reflexivity].
     unfold heads, item_wf, raw, i_size, padded, header; cbn [i_tag i_typ i_len i_val i_pad].
@@ -375,7 +375,7 @@ Proof.
     rewrite L, R2, R3, R4, R5, <- !app_assoc. reflexivity.
   - (* KStr *) binv Hk0. destruct x as [l s3]. binv Hk. destruct x as [b s4]. binv Hk0. destruct x as [p s5].
     injection Hk as <- <- <-.
-    apply read_num_inv in Hb. destruct Hb as (R3 & Z3 & B3). apply read_nN_inv in Hb0. destruct Hb0 as (R4 & L4 & Z4).
+    apply read_num_inv in Hb. destruct Hb as (R3 & Z3 & B3). apply copy_nN_ok in Hb0. apply read_nN_inv in Hb0. destruct Hb0 as (R4 & L4 & Z4).
     apply read_nN_inv in Hb1. destruct Hb1 as (R5 & L5 & Z5). cbn in B3.
     exists {| i_tag := t; i_typ := 7; i_len := l; i_val := b; i_pad := p |}. split; [|reflexivity].
     unfold heads, item_wf, raw, i_size, padded, header; cbn [i_tag i_typ i_len i_val i_pad].
@@ -847,9 +847,9 @@ Proof.
     + apply b2n_0 in Bx. subst x. reflexivity.
     + apply b2n_1 in Bx. subst x. reflexivity.
   - (* KBytes *) injection Hp as <-. rewrite read_num_be by (cbn; lia). cbn [bind].
-    rewrite read_nN_app by assumption. cbn [bind]. rewrite read_nN_app by assumption. cbn [bind]. rewrite N.add_assoc. reflexivity.
+    rewrite copy_nN_app by assumption. cbn [bind]. rewrite read_nN_app by assumption. cbn [bind]. rewrite N.add_assoc. reflexivity.
   - (* KStr *) injection Hp as <-. rewrite read_num_be by (cbn; lia). cbn [bind].
-    rewrite read_nN_app by assumption. cbn [bind]. rewrite read_nN_app by assumption. cbn [bind]. rewrite N.add_assoc. reflexivity.
+    rewrite copy_nN_app by assumption. cbn [bind]. rewrite read_nN_app by assumption. cbn [bind]. rewrite N.add_assoc. reflexivity.
   - (* KTime *) destruct (N.eqb_spec (i_len it) 8) as [E|]; [|discriminate]. injection Hp as <-.
     destruct (F8 E) as (Ep & Lb). rewrite E, Ep. rewrite expect_num_be by (cbn; lia). cbn [bind app].
     rewrite read_n_app by assumption. cbn [bind]. reflexivity.
